@@ -613,6 +613,7 @@ func c17step(ins inspector.StringsInspector, v *c17val, buf *inspector.ByteBuffe
 		return c17err(detail, err) + "," + c17alias(c17overlap(v.ranges(), d.ranges())) + "," + d.print(detail)
 	case "Y":
 		x, err := ins.Copy(v.arg())
+		laterCopies(ins, v.arg())
 		ss, ok := x.([]string)
 		if !ok {
 			return c17err(detail, err) + ",a0,?"
